@@ -42,6 +42,10 @@ def main():
     _prepare()
     from . import engine
 
+    if "intmax-640-after-import" in os.environ.get("VERIF_ENV_PREPARE", ""):
+        # an application that lowers the interpreter's integer-string limit (to its minimum) after the library was imported
+        sys.set_int_max_str_digits(640)
+
     accs = []
     for n, shard in enumerate(shards):
         idx, acc = engine._worker((modname, n, engine._tuplify(shard), tier, int(seed)))
